@@ -49,6 +49,12 @@ def configs(tier, family):
                                 "count": rng.choice([4, 10, 25]) if tier == "quick" else rng.choice([10, 40, 120]),
                                 "payload": rng.choice(["small", "big"]), "delay": rng.choice([0, 0, 150]),
                                 "initiator": ini, "busy": busy, "seed": vlib.seed() * 100 + rep})
+    if family in ("C04", "C13"):
+        # a session that stays silent for longer than the TCP read poll (5 s) and then carries traffic again
+        for tr in (["tcp"] if tier == "quick" else ["tcp", "tls", "ws"]):
+            for k in (0, 1):   # second phase from the client only / from the server only
+                out.append({"transport": tr, "buffer": 8, "senders": 2, "count": 6, "payload": "small", "delay": 0,
+                            "initiator": "cfinish", "busy": False, "seed": vlib.seed() * 100 + 90 + k, "idle": 5600})
     if family == "C06":
         # the window between the established check of a send and its turn at the mutex: many senders, short
         # envelopes, the session ended by the server in the middle of it, the server's wire tapped (tcp, tls)
